@@ -114,6 +114,16 @@ func genTree(a *hx.Args, keys []string, perTree int) {
 		nm = 4
 	}
 	for i := 0; i < nm; i++ {
+		if i > 0 {
+			// Each of these walks starts on the intact bucket. A marker with an empty segment ("/") makes a
+			// delimiter-"/" listing DELETE directories (recorded finding isDirectoryAllEmpty/listing-deletes-
+			// non-empty-directory); the parent of a deleted directory stays behind as an explicitly EMPTY directory
+			// entry, which the model (a directory exists only through the keys below it) does not represent: the
+			// next listing met it (seed 22: keys d/e/g d/e/h z, the walk "prefix d/ marker /" removed d/e, then
+			// "prefix z, marker d/e/f" had the store iteration start on the leftover d and stop there).
+			// reset draws nothing from the rng: the walks of every seed are unchanged.
+			run("reset", hk)
+		}
 		m := markers[i]
 		if perTree > 0 {
 			m = rng.Pick(markers)
